@@ -81,6 +81,8 @@ structure SInv (n : Nat) (s : Sender ℚ) : Prop where
   finished : s.proc = .finished → s.next_seq = n
   live : ∀ kv ∈ s.timers, kv.2.live = true ∧ kv.2.wake = kv.2.expiry ∧ s.now ≤ kv.2.wake
   tk : ∀ q ∈ AL.keys s.timers, s.mss ∣ q ∧ q < s.next_seq
+  /-- timers exist only for segments not below the acknowledged mark -/
+  tge : ∀ q ∈ AL.keys s.timers, s.last_ack ≤ q
 
 theorem al_succ {m a b : Nat} (ha : m ∣ a) (hb : m ∣ b) (h : a < b) : a + m ≤ b := by
   obtain ⟨x, rfl⟩ := ha
@@ -170,7 +172,7 @@ theorem sinv_sent (h : SInv n s) (hd : s.next_seq < n) :
   have hm := h.mpos
   have hle := al_succ h.ns_al h.dvd hd
   have hla := h.la_le
-  refine ⟨?_, h.size, h.npos, h.mpos, h.dvd, h.ccmss, ?_, hle, Or.inl rfl, ?_, ?_, ?_, ?_, ?_, ?_⟩
+  refine ⟨?_, h.size, h.npos, h.mpos, h.dvd, h.ccmss, ?_, hle, Or.inl rfl, ?_, ?_, ?_, ?_, ?_, ?_, ?_⟩
   · exact ⟨h.inv.cc, AL.keys_set_congr _ _ _ h.inv.keys, AL.nodup_keys_set _ _ _ h.inv.nodup, h.inv.rto_pos,
       h.inv.srtt_pos, h.inv.dev_nonneg, Nat.le_refl _⟩
   · exact Dvd.dvd.add h.ns_al (Nat.dvd_refl _)
@@ -201,6 +203,10 @@ theorem sinv_sent (h : SInv n s) (hd : s.next_seq < n) :
       exact ⟨a, by show q < s.next_seq + s.mss; omega⟩
     · subst e
       exact ⟨h.ns_al, by show s.next_seq < s.next_seq + s.mss; omega⟩
+  · intro q hq
+    rcases AL.mem_keys_set.mp hq with e | e
+    · exact h.tge q e
+    · subst e; exact hla
 
 theorem sinv_yield (h : SInv n s) (_hd : s.next_seq < n) (hw : ¬ ((s.next_seq : ℚ) + s.mss ≤ s.last_ack + s.cc.cwnd)) :
     SInv n ({ s with send_buffer := s.next_seq + s.mss } : Sender ℚ).getToken := by
@@ -528,7 +534,7 @@ theorem eff_fire {seq : Nat} {s' : Sender ℚ} {outs : List (Tx ℚ)} (h : SInv 
   have hkeys : AL.keys (AL.set seq ({ expiry := s.now + s.est.rto * 2, wake := s.now + s.est.rto * 2, live := true } : TimerRec ℚ)
       s.timers) = AL.keys s.timers := AL.keys_set_of_mem _ _ _ hmem
   have hrto := h.inv.rto_pos
-  refine ⟨{ h with inv := hinv, ccmss := ?_, tm := ?_, live := ?_, tk := ?_ },
+  refine ⟨{ h with inv := hinv, ccmss := ?_, tm := ?_, live := ?_, tk := ?_, tge := fun q hq => h.tge q (hkeys ▸ hq) },
     rfl, Or.inl rfl, Nat.le_refl _, fun x e => (by cases e), le_refl _, fun q hq => Or.inl (hkeys ▸ hq), ?_, ?_⟩
   · show (s.mss : ℚ) ≤ (CC.timerExpired s.kind s.cc).mss
     rw [timerExpired_mss]; exact h.ccmss
@@ -576,7 +582,8 @@ theorem eff_ack {x : AckIn ℚ} {s' : Sender ℚ} {outs : List (Tx ℚ)} (h : SI
   | new T S hd e1 hT hsub e2 =>
     subst e1 e2
     refine ⟨{ h with inv := hinv, ccmss := ?_, la_le := g.le, tm := ?_, blk := fun _ => Or.inl (Nat.succ_pos _),
-                     live := fun kv hkv => h.live kv (hsub kv hkv), tk := fun q hq => h.tk q ((hT q).mp hq).1 },
+                     live := fun kv hkv => h.live kv (hsub kv hkv), tk := fun q hq => h.tk q ((hT q).mp hq).1,
+                     tge := fun q hq => (by have := ((hT q).mp hq).2; show x.ackno ≤ q; omega) },
       rfl, Or.inr ⟨x, rfl, rfl⟩, Nat.le_refl _, fun _ _ => rfl, le_refl _, ?_, nofresh, fun tx htx => by simp at htx⟩
     · show (s.mss : ℚ) ≤ (CC.ackReceived s.kind (ccBeforeNew s) _ s.now).mss
       rw [ackReceived_mss, ccBeforeNew_mss]; exact h.ccmss
